@@ -60,6 +60,9 @@ func (P *Program) typeInvImmutable(prop string) []*Obligation {
 			out = append(out, staticOb("static/typeinv-immutable:"+ti.Type, "?", "type of invariant exists", false, "type not found"))
 			continue
 		}
+		if _, isStruct := tn.Type().Underlying().(*types.Struct); !isStruct {
+			continue
+		}
 		fields := map[string]bool{}
 		exprFields(ti.Clause.Expr, fields)
 		keys := map[string]string{}
